@@ -26,7 +26,7 @@ ID = 'C16'
 CASE_TYPE = 'C16.case'
 EXTRA_IMPORTS = 'From PJ Require Import Model.Spec.\n'
 RULE = ('method sets of 1..3 (quick) / 1..4 (thorough) methods drawn from a pool of functions with annotated scalar / container / model / '
-        'optional parameter and return types (incl. None and missing) and docstrings with and without params / raises sections (reST, and numpy style with description-less entries); the same method name may be exposed by different functions at different endpoints; '
+        'optional parameter and return types (incl. None and missing) and docstrings with and without params / raises sections (reST, and numpy style with description-less entries); the same method name may be exposed by different functions at different endpoints; names that differ only by separator or casing (user_get / user.get, getUsers / get_users); '
         'annotation combinations: errors (own list, ONE list object shared between methods, none), tags, summary, '
         'description, deprecated, component_name_prefix; extractor stacks {pydantic, pydantic+docstring, docstring+pydantic}; endpoint '
         'prefixes (OpenAPI); 1..3 repeated generations on the same specification object; OpenAPI 3.0.3, 3.1.0 and OpenRPC. Each document '
@@ -95,12 +95,13 @@ def make_fn(name, sig_i, doc_i):
     doc = DOCS[doc_i]
     if doc is not None and ':param a:' in doc and 'a:' not in params:
         doc = doc.replace(':param a: the a\n    ', '')
-    src = 'def %s(%s)%s:\n' % (name, params, (' -> %s' % ret) if ret else '')
+    pyname = name.replace('.', '_dot_')          # the exposed name need not be an identifier; the function's own name is
+    src = 'def %s(%s)%s:\n' % (pyname, params, (' -> %s' % ret) if ret else '')
     if doc is not None:
         src += '    """%s\n    """\n' % doc
     src += '    return None\n'
     exec(src, ns)
-    f = ns[name]
+    f = ns[pyname]
     f.__module__ = __name__
     return f
 
@@ -118,7 +119,7 @@ def generate(seed, tier):
         for i in range(k):
             endpoint = rnd.choice(['', '', '/v2'])
             # the same method name may be exposed (by different functions) at different endpoints
-            name = rnd.choice(['m%d' % i, 'get', 'get'])
+            name = rnd.choice(['m%d' % i, 'get', 'get', 'user_get', 'user.get', 'getUsers', 'get_users'])
             if (name, '' if kind == 'rpc' else endpoint) in taken:
                 name = 'm%d' % i
             taken.add((name, '' if kind == 'rpc' else endpoint))
